@@ -617,8 +617,13 @@ func builtinRandomInt(i *Interpreter, args []Expr, env *Environment) (interface{
 	if minVal > maxVal {
 		return nil, fmt.Errorf("randomInt() requires min <= max, got min=%d, max=%d", minVal, maxVal)
 	}
+	span := maxVal - minVal + 1
+	if span <= 0 {
+		// maxVal-minVal+1 does not fit in an int64; rand.Int63n panics on such an argument
+		return nil, fmt.Errorf("randomInt() range is too large, got min=%d, max=%d", minVal, maxVal)
+	}
 	// #nosec G404 -- non-cryptographic PRNG intentional for general-purpose scripting use
-	return minVal + rand.Int63n(maxVal-minVal+1), nil
+	return minVal + rand.Int63n(span), nil
 }
 
 func builtinGenerateId(_ *Interpreter, args []Expr, _ *Environment) (interface{}, error) {
